@@ -25,10 +25,13 @@ ASSUMPTIONS = [
 ]
 
 
-def run_history(ctx, case, history, tmpdir, use_recorder_class):
-    """history = [k, j, i]: reads before 1st rewind, between 1st and 2nd, between 2nd and 3rd."""
+def run_history(ctx, case, history, tmpdir, use_recorder_class, pauses=()):
+    """history = [k, j, i]: reads before 1st rewind, between 1st and 2nd, between 2nd and 3rd.
+    pauses: indices of first-pass reads before which the reader is closed and opened again (streams only: a stream keeps its place)."""
     data = RC.audio_of(case)
     cj = dict(case, history=list(history), cls="Recorder" if use_recorder_class else "AudioReader(record=True)")
+    if pauses:
+        cj["pauses"] = sorted(pauses)
     bps = case["width"] * case["channels"]
     try:
         if use_recorder_class:
@@ -52,7 +55,15 @@ def run_history(ctx, case, history, tmpdir, use_recorder_class):
         except Exception:
             ctx.count("data_before_rewind_raised")
         step = "phase-1 reads"
-        first = [reader.read() for _ in range(history[0])]
+        first = []
+        for r_ in range(history[0]):
+            if r_ in pauses:
+                step = "pause"
+                reader.close()
+                reader.open()
+                ctx.count("pauses_before_the_first_rewind")
+                step = "phase-1 reads"
+            first.append(reader.read())
         got_blocks = [b for b in first if b is not None]
         # which candidate (visible length) is this run consistent with?
         match = None
@@ -190,15 +201,16 @@ def non_recording(ctx, case, tmpdir):
     try:
         reader.open()
         reader.read()
+        ctx.count("non_recording_readers_on_" + case["kind"])
         for attr in ("data", "rewind"):
             ctx.count("non_recording_attribute_checks")
             try:
                 getattr(reader, attr)
-                ctx.violation(f"non-recording-reader-exposes-{attr}", {"case": dict(case)})
+                ctx.violation(f"non-recording-reader-exposes-{attr}", {"case": dict(case, op="non_recording")})
             except AttributeError:
                 pass
             except Exception as exc:
-                ctx.violation(f"non-recording-reader-{attr}-raises-{type(exc).__name__}", {"case": dict(case)})
+                ctx.violation(f"non-recording-reader-{attr}-raises-{type(exc).__name__}", {"case": dict(case, op="non_recording")})
     finally:
         try:
             reader.close()
@@ -261,6 +273,13 @@ def run_shard(ctx):
             run_history(ctx, case, history, tmpdir, use_recorder_class=rng.random() < 0.5)
             if i % 10 == 0:
                 non_recording(ctx, case, tmpdir)
+            if i % 10 == 5:
+                non_recording(ctx, dict(case, kind="app_obj"), tmpdir)
+            if i % 6 == 1 and history[0] > 1:
+                # a live recording that is paused and resumed: everything consumed, before and after the pause, is the recording
+                live = dict(case, kind=rng.choice(("stdin", "live_obj")))
+                run_history(ctx, live, history, tmpdir, use_recorder_class=rng.random() < 0.5,
+                            pauses=set(rng.sample(range(1, history[0]), min(history[0] - 1, rng.choice((1, 1, 2))))))
             if (i & 31) == 0 and ctx.out_of_time():
                 break
     finally:
@@ -273,7 +292,9 @@ def replay(ctx, case):
     cls = case.pop("cls", "Recorder")
     tmpdir = tempfile.mkdtemp(prefix="vf-c19-")
     try:
-        run_history(ctx, case, history, tmpdir, cls == "Recorder")
+        if case.pop("op", None) == "non_recording":
+            return non_recording(ctx, case, tmpdir)
+        run_history(ctx, case, history, tmpdir, cls == "Recorder", pauses=set(case.pop("pauses", ())))
     finally:
         shutil.rmtree(tmpdir, ignore_errors=True)
 
@@ -282,5 +303,5 @@ def inconclusive(merged, tier):
     c = merged["counters"]
     need = ["histories", "rewinds", "replayed_reads", "data_before_rewind_raised", "histories_with_overlap",
             "histories_with_max_read", "histories_rewound_after_zero_reads", "histories_read_past_the_end",
-            "histories_rewound_after_partial_read", "non_recording_attribute_checks", "exhaustive_core_histories", "long_histories", "data_before_rewind_raised_after_reads", "histories_of_more_than_65536_reads"]
+            "histories_rewound_after_partial_read", "non_recording_attribute_checks", "exhaustive_core_histories", "long_histories", "data_before_rewind_raised_after_reads", "histories_of_more_than_65536_reads", "pauses_before_the_first_rewind", "non_recording_readers_on_app_obj"]
     return [f"monitor never observed {k}" for k in need if c.get(k, 0) == 0]
